@@ -25,27 +25,33 @@ pub struct Out<const N: usize> { pub b: [u8; N], pub n: usize }
 /// Capacity of a pre-encoded nested item.
 pub const RAW: usize = 12;
 
-/// A leaf (or pre-encoded nested) data item.
-#[derive(Clone, Copy)]
-pub enum Item {
-    /// unsigned integer
-    U(u64),
-    /// signed integer
-    I(i64),
-    Bool(bool),
-    /// byte string of length 4 (`with = "minicbor::bytes"` on `[u8; 4]`)
-    Bytes4([u8; 4]),
-    /// an item already encoded by the reference encoder (nested struct / enum)
-    Raw(Out<RAW>),
-}
+// The schema / value model is made of flat scalar records on purpose: CBMC's constant propagation follows scalar
+// struct fields and index loops, but not Rust enums with payloads or slice iterators; with those the structure of the
+// reference output is no longer concrete and decode-side harnesses do not terminate (measured: 8 s vs > 200 s).
 
-/// One field of a struct / variant: index, optional tag, value (`None` = absent optional value).
-#[derive(Clone, Copy)]
-pub struct F { pub idx: u32, pub tag: Option<u64>, pub val: Option<Item> }
+/// kinds of leaf item
+pub const K_U: u8 = 0;        // unsigned integer, `val` is the value
+pub const K_I: u8 = 1;        // signed integer, `val` is the value as i64 bits
+pub const K_BOOL: u8 = 2;     // `val` != 0
+pub const K_BYTES4: u8 = 3;   // byte string of length 4 (`with = "minicbor::bytes"` on `[u8; 4]`), `val` = the bytes big-endian
+pub const K_NESTED: u8 = 4;   // an item pre-encoded by the reference encoder (nested struct / enum), passed separately
+pub const NOTAG: u64 = u64::MAX;
 
-pub fn req(idx: u32, it: Item) -> F { F { idx, tag: None, val: Some(it) } }
-pub fn opt(idx: u32, it: Option<Item>) -> F { F { idx, tag: None, val: it } }
-pub fn tagged(t: u64, f: F) -> F { F { tag: Some(t), ..f } }
+/// One field of a struct / variant: index, tag (or NOTAG), presence (false = absent optional value), leaf.
+#[derive(Clone, Copy)]
+pub struct F { pub idx: u32, pub tag: u64, pub present: bool, pub kind: u8, pub val: u64 }
+
+pub fn fu(idx: u32, v: u64) -> F { F { idx, tag: NOTAG, present: true, kind: K_U, val: v } }
+pub fn fi(idx: u32, v: i64) -> F { F { idx, tag: NOTAG, present: true, kind: K_I, val: v as u64 } }
+pub fn fb(idx: u32, v: bool) -> F { F { idx, tag: NOTAG, present: true, kind: K_BOOL, val: v as u64 } }
+pub fn fbytes4(idx: u32, v: [u8; 4]) -> F { F { idx, tag: NOTAG, present: true, kind: K_BYTES4, val: u32::from_be_bytes(v) as u64 } }
+pub fn fnested(idx: u32) -> F { F { idx, tag: NOTAG, present: true, kind: K_NESTED, val: 0 } }
+pub fn absent(idx: u32) -> F { F { idx, tag: NOTAG, present: false, kind: K_U, val: 0 } }
+pub fn tagged(t: u64, f: F) -> F { F { tag: t, ..f } }
+/// optional fields
+pub fn ou<T: Into<u64> + Copy>(idx: u32, x: &Option<T>) -> F { match x { Some(v) => fu(idx, (*v).into()), None => absent(idx) } }
+pub fn oi<T: Into<i64> + Copy>(idx: u32, x: &Option<T>) -> F { match x { Some(v) => fi(idx, (*v).into()), None => absent(idx) } }
+pub fn ob(idx: u32, x: &Option<bool>) -> F { match x { Some(v) => fb(idx, *v), None => absent(idx) } }
 
 /// Framing of the encoding: what `Encode` produces is `PREF`; the others are equivalent encodings of the same
 /// value that a decoder must accept (RFC 8949: indefinite-length containers, non-preferred argument widths).
@@ -60,6 +66,7 @@ pub const PREF: Fr = Fr { indef: false, wide: 0 };
 pub const INDEF: Fr = Fr { indef: true, wide: 0 };
 pub const WIDE1: Fr = Fr { indef: false, wide: 1 };
 pub const WIDE2: Fr = Fr { indef: false, wide: 2 };
+pub const WIDE4: Fr = Fr { indef: false, wide: 4 };
 
 impl<const N: usize> Out<N> {
     pub fn new() -> Self { Out { b: [0; N], n: 0 } }
@@ -86,40 +93,51 @@ impl<const N: usize> Out<N> {
         }
     }
 
-    pub fn item(&mut self, it: &Item, wide: u8) {
-        match *it {
-            Item::U(v) => self.head(0, v, wide),
-            Item::I(v) => if v >= 0 { self.head(0, v as u64, wide) } else { self.head(1, (-1 - v) as u64, wide) },
-            Item::Bool(b) => self.put(if b { 0xf5 } else { 0xf4 }),
-            Item::Bytes4(x) => { self.head(2, 4, wide); self.put(x[0]); self.put(x[1]); self.put(x[2]); self.put(x[3]) }
-            Item::Raw(ref r) => { let mut i = 0; while i < RAW { if i < r.n { self.put(r.b[i]) } i += 1 } }
+    pub fn item(&mut self, f: &F, nested: &Out<RAW>, wide: u8) {
+        if f.kind == K_U {
+            self.head(0, f.val, wide)
+        } else if f.kind == K_I {
+            let v = f.val as i64;
+            if v >= 0 { self.head(0, v as u64, wide) } else { self.head(1, (-1 - v) as u64, wide) }
+        } else if f.kind == K_BOOL {
+            self.put(if f.val != 0 { 0xf5 } else { 0xf4 })
+        } else if f.kind == K_BYTES4 {
+            self.head(2, 4, wide);
+            self.put((f.val >> 24) as u8); self.put((f.val >> 16) as u8); self.put((f.val >> 8) as u8); self.put(f.val as u8)
+        } else {
+            let mut i = 0;
+            while i < RAW { if i < nested.n { self.put(nested.b[i]) } i += 1 }
         }
     }
 
     /// `<<struct-as-array encoding>>` / `<<struct-as-map encoding>>`, preceded by the tag if there is one.
     /// `fs` lists the (non-skipped) fields in ascending index order - declaration order and names are not part of
-    /// the schema.
+    /// the schema.  `nested` is the pre-encoded value of the (at most one) field of kind K_NESTED.
     ///  array: `array(n)` with n = highest index holding a value + 1; position i holds the field with index i, NULL
     ///         where there is no such field or its value is absent; a field tag precedes what is written for the field
     ///  map:   `map(n)` with n = number of fields holding a value; ascending `index value` pairs; absent values are
     ///         not encoded
-    pub fn structure(&mut self, map: bool, tag: Option<u64>, fs: &[F], fr: Fr) {
-        if let Some(t) = tag { self.head(6, t, fr.wide) }
+    pub fn structure_n(&mut self, map: bool, tag: u64, fs: &[F], nested: &Out<RAW>, fr: Fr) {
+        if tag != NOTAG { self.head(6, tag, fr.wide) }
         if map {
             let mut cnt: u64 = 0;
-            for f in fs { if f.val.is_some() { cnt += 1 } }
+            let mut j = 0;
+            while j < fs.len() { if fs[j].present { cnt += 1 } j += 1 }
             if fr.indef { self.put(0xbf) } else { self.head(5, cnt, fr.wide) }
-            for f in fs {
-                if let Some(it) = &f.val {
-                    self.head(0, f.idx as u64, fr.wide);
-                    if let Some(t) = f.tag { self.head(6, t, fr.wide) }
-                    self.item(it, fr.wide)
+            let mut j = 0;
+            while j < fs.len() {
+                if fs[j].present {
+                    self.head(0, fs[j].idx as u64, fr.wide);
+                    if fs[j].tag != NOTAG { self.head(6, fs[j].tag, fr.wide) }
+                    self.item(&fs[j], nested, fr.wide)
                 }
+                j += 1
             }
             if fr.indef { self.put(0xff) }
         } else {
             let mut n: u64 = 0;
-            for f in fs { if f.val.is_some() { n = f.idx as u64 + 1 } }
+            let mut j = 0;
+            while j < fs.len() { if fs[j].present { n = fs[j].idx as u64 + 1 } j += 1 }
             if fr.indef { self.put(0x9f) } else { self.head(4, n, fr.wide) }
             let top: u32 = if fs.is_empty() { 0 } else { fs[fs.len() - 1].idx + 1 };
             let mut k = 0usize;
@@ -128,8 +146,8 @@ impl<const N: usize> Out<N> {
                 let here = k < fs.len() && fs[k].idx == i;
                 if (i as u64) < n {
                     if here {
-                        if let Some(t) = fs[k].tag { self.head(6, t, fr.wide) }
-                        match &fs[k].val { Some(it) => self.item(it, fr.wide), None => self.put(0xf6) }
+                        if fs[k].tag != NOTAG { self.head(6, fs[k].tag, fr.wide) }
+                        if fs[k].present { self.item(&fs[k], nested, fr.wide) } else { self.put(0xf6) }
                     } else {
                         self.put(0xf6)
                     }
@@ -141,14 +159,17 @@ impl<const N: usize> Out<N> {
         }
     }
 
-    /// `<<enum encoding>>`: `array(2) n <<struct encoding>>`, or the bare `n` for `index_only`; an enum-level tag
-    /// precedes the whole, a variant-level tag precedes the variant value.
-    pub fn enumeration(&mut self, enum_tag: Option<u64>, index_only: bool, variant: u32, variant_tag: Option<u64>, map: bool, fs: &[F], fr: Fr) {
-        if let Some(t) = enum_tag { self.head(6, t, fr.wide) }
-        if index_only { self.head(0, variant as u64, fr.wide); return }
-        self.head(4, 2, fr.wide);
-        self.head(0, variant as u64, fr.wide);
-        self.structure(map, variant_tag, fs, fr)
+    pub fn structure(&mut self, map: bool, tag: u64, fs: &[F], fr: Fr) {
+        let none = Out::<RAW>::new();
+        self.structure_n(map, tag, fs, &none, fr)
+    }
+
+    /// `<<enum encoding>>` = `array(2) n <<struct encoding>>`: this writes `[tag] array(2) n`, the caller continues
+    /// with `structure` (a variant-level tag is the struct tag there).  For `index_only` enums: `[tag] n` and nothing else.
+    pub fn enum_prefix(&mut self, enum_tag: u64, index_only: bool, variant: u32, fr: Fr) {
+        if enum_tag != NOTAG { self.head(6, enum_tag, fr.wide) }
+        if !index_only { self.head(4, 2, fr.wide) }
+        self.head(0, variant as u64, fr.wide)
     }
 }
 
@@ -202,38 +223,55 @@ fn end0(buf: &[u8], p: usize) -> Option<usize> {
     }
 }
 
-macro_rules! end_level {
-    ($name:ident, $inner:ident) => {
-        fn $name(buf: &[u8], p: usize) -> Option<usize> {
-            let (major, info, arg, hlen) = head_at(buf, p)?;
-            match major {
-                4 | 5 => {
-                    assert!(info != 31, "skip stub: indefinite container outside the stub's domain");
-                    assert!(arg <= 8, "skip stub: container longer than the stub's domain");
-                    let n = if major == 4 { arg } else { 2 * arg };
-                    let mut q = p + hlen;
-                    let mut i = 0;
-                    while i < n { q = $inner(buf, q)?; i += 1 }
-                    Some(q)
-                }
-                6 => $inner(buf, p + hlen),
-                _ => end0(buf, p),
+/// end of an item whose nested items are leaves: containers of at most 4 items (the loop has a constant bound)
+fn end1(buf: &[u8], p: usize) -> Option<usize> {
+    let (major, info, arg, hlen) = head_at(buf, p)?;
+    match major {
+        4 | 5 => {
+            assert!(info != 31, "skip stub: indefinite container outside the stub's domain");
+            let n = if major == 4 { arg } else { 2 * arg };
+            assert!(n <= 4, "skip stub: container longer than the stub's domain");
+            let mut q = p + hlen;
+            let mut i = 0;
+            while i < 4 { if i < n { q = end0(buf, q)? } i += 1 }
+            Some(q)
+        }
+        6 => end0(buf, p + hlen),
+        _ => end0(buf, p),
+    }
+}
+
+/// end of an item nested two levels: an array of at most 2 items that are in `end1`'s domain (e.g. an enum `[n, body]`)
+fn end2(buf: &[u8], p: usize) -> Option<usize> {
+    let (major, info, arg, hlen) = head_at(buf, p)?;
+    match major {
+        4 => {
+            assert!(info != 31 && arg <= 2, "skip stub: container outside the stub's domain");
+            let mut q = p + hlen;
+            if arg >= 1 { q = end1(buf, q)? }
+            if arg >= 2 { q = end1(buf, q)? }
+            Some(q)
+        }
+        _ => end1(buf, p),
+    }
+}
+
+macro_rules! skip_stub {
+    ($name:ident, $end:ident) => {
+        #[cfg(kani)]
+        pub fn $name<'b>(d: &mut Decoder<'b>) -> Result<(), minicbor::decode::Error> where 'b: 'b {
+            let buf = d.input();
+            let p = d.position();
+            match $end(buf, p) {
+                Some(q) => { d.set_position(q); Ok(()) }
+                None => Err(minicbor::decode::Error::end_of_input()),
             }
         }
     }
 }
-end_level!(end1, end0);
-end_level!(end2, end1);
-
-#[cfg(kani)]
-pub fn skip_contract<'b>(d: &mut Decoder<'b>) -> Result<(), minicbor::decode::Error> where 'b: 'b {
-    let buf = d.input();
-    let p = d.position();
-    match end2(buf, p) {
-        Some(q) => { d.set_position(q); Ok(()) }
-        None => Err(minicbor::decode::Error::end_of_input()),
-    }
-}
+skip_stub!(skip0, end0);
+skip_stub!(skip1, end1);
+skip_stub!(skip2, end2);
 
 // =====================================================================================================================
 // Harness templates
@@ -266,13 +304,14 @@ macro_rules! enc_harness {
 }
 
 /// C09 / C10: reader type `$rt` decodes the reference encoding (framing `$fr`) of the writer value `$mk` of type `$wt`
-/// (presence concrete, leaves symbolic) to `$expect`, consuming exactly the input.
+/// (presence concrete, leaves symbolic) to `$expect`, consuming exactly the input.  `$skip` = which rendering of the
+/// contract of `Decoder::skip` is used (skip0: leaves, skip1: containers of leaves, skip2: `[n, container of leaves]`).
 macro_rules! dec_harness {
-    ($name:ident, $wt:ty => $rt:ty, $cap:expr, $reff:path, $fr:expr, $mk:expr, |$v:ident| $expect:expr) => {
+    ($name:ident, $skip:ident, $wt:ty => $rt:ty, $cap:expr, $reff:path, $fr:expr, $mk:expr, |$v:ident| $expect:expr) => {
         #[cfg(kani)]
         #[kani::proof]
-        #[kani::stub(minicbor::decode::Decoder::skip, crate::skip_contract)]
-        #[kani::unwind(10)]
+        #[kani::stub(minicbor::decode::Decoder::skip, $skip)]
+        #[kani::unwind(8)]
         fn $name() {
             let $v: $wt = $mk;
             let mut inp = Out::<$cap>::new();
@@ -291,7 +330,7 @@ macro_rules! dec_harness {
         }
     };
     ($name:ident, $t:ty, $cap:expr, $reff:path, $fr:expr, $mk:expr) => {
-        dec_harness!($name, $t => $t, $cap, $reff, $fr, $mk, |v| v);
+        dec_harness!($name, skip0, $t => $t, $cap, $reff, $fr, $mk, |v| v);
     };
 }
 
@@ -299,17 +338,13 @@ macro_rules! dec_harness {
 // The family
 // =====================================================================================================================
 
-fn u(x: impl Into<u64>) -> Item { Item::U(x.into()) }
-fn ou<T: Into<u64> + Copy>(x: &Option<T>) -> Option<Item> { match x { Some(v) => Some(Item::U((*v).into())), None => None } }
-fn ob(x: &Option<bool>) -> Option<Item> { match x { Some(v) => Some(Item::Bool(*v)), None => None } }
-
 // ---- A: array encoding, gap at index 1, optional in the middle -------------------------------------------------------
 #[derive(Encode, Decode, CborLen, PartialEq, Clone, Copy)]
 #[cfg_attr(kani, derive(kani::Arbitrary))]
 pub struct A { #[n(0)] a: u8, #[n(2)] b: Option<u16>, #[n(3)] c: bool }
 
 fn ref_a<const N: usize>(o: &mut Out<N>, v: &A, fr: Fr) {
-    o.structure(false, None, &[req(0, u(v.a)), opt(2, ou(&v.b)), req(3, Item::Bool(v.c))], fr)
+    o.structure(false, NOTAG, &[fu(0, v.a as u64), ou(2, &v.b), fb(3, v.c)], fr)
 }
 
 // @harness name=enc_a props=C08,C07 kind=complete
@@ -318,6 +353,8 @@ enc_harness!(enc_a, A, 16, ref_a, |v| true, v.b.is_some() && v.a >= 24);
 dec_harness!(dec_a_m0, A, 16, ref_a, PREF, A { a: kani::any(), b: None, c: kani::any() });
 // @harness name=dec_a_m1 props=C09 kind=complete
 dec_harness!(dec_a_m1, A, 16, ref_a, PREF, A { a: kani::any(), b: Some(kani::any()), c: kani::any() });
+dec_harness!(x_a_wide2, A, 16, ref_a, WIDE2, A { a: kani::any(), b: Some(kani::any()), c: kani::any() });
+dec_harness!(x_a_indef, A, 16, ref_a, INDEF, A { a: kani::any(), b: None, c: kani::any() });
 
 // ---- M: map encoding with gaps, two optional fields ------------------------------------------------------------------
 #[derive(Encode, Decode, CborLen, PartialEq, Clone, Copy)]
@@ -326,45 +363,10 @@ dec_harness!(dec_a_m1, A, 16, ref_a, PREF, A { a: kani::any(), b: Some(kani::any
 pub struct M { #[n(0)] a: u8, #[n(2)] b: Option<u16>, #[n(5)] c: Option<bool> }
 
 fn ref_m<const N: usize>(o: &mut Out<N>, v: &M, fr: Fr) {
-    o.structure(true, None, &[req(0, u(v.a)), opt(2, ou(&v.b)), opt(5, ob(&v.c))], fr)
+    o.structure(true, NOTAG, &[fu(0, v.a as u64), ou(2, &v.b), ob(5, &v.c)], fr)
 }
 
 // @harness name=enc_m props=C08,C07 kind=complete
 enc_harness!(enc_m, M, 16, ref_m, |v| true, v.b.is_some() && v.c.is_none());
 // @harness name=dec_m_m3 props=C09 kind=complete
 dec_harness!(dec_m_m3, M, 16, ref_m, PREF, M { a: kani::any(), b: Some(kani::any()), c: Some(kani::any()) });
-
-// ---- EXPERIMENTS (temporary) ----
-#[derive(Encode, Decode, CborLen, PartialEq, Clone, Copy)]
-#[cfg_attr(kani, derive(kani::Arbitrary))]
-pub struct B { #[n(0)] a: bool, #[n(2)] b: Option<bool>, #[n(3)] c: Option<bool> }
-fn ref_b<const N: usize>(o: &mut Out<N>, v: &B, fr: Fr) {
-    o.structure(false, None, &[req(0, Item::Bool(v.a)), opt(2, ob(&v.b)), opt(3, ob(&v.c))], fr)
-}
-dec_harness!(x_b_m3, B, 16, ref_b, PREF, B { a: kani::any(), b: Some(kani::any()), c: Some(kani::any()) });
-dec_harness!(x_b_m2, B, 16, ref_b, PREF, B { a: kani::any(), b: None, c: Some(kani::any()) });
-
-#[cfg(kani)]
-#[kani::proof]
-#[kani::stub(minicbor::decode::Decoder::skip, crate::skip_contract)]
-#[kani::unwind(10)]
-fn x_b_lit() {
-    let y: bool = kani::any(); let a: bool = kani::any();
-    let bb = |x: bool| if x { 0xf5u8 } else { 0xf4 };
-    let inp = [0x84u8, bb(a), 0xf6, 0xf6, bb(y)];
-    let mut d = Decoder::new(&inp[..]);
-    let r: Result<B, minicbor::decode::Error> = Decode::decode(&mut d, &mut ());
-    match r { Ok(w) => { assert!(w == B { a, b: None, c: Some(y) }); assert!(d.position() == 5) } Err(_) => assert!(false) }
-}
-#[cfg(kani)]
-#[kani::proof]
-#[kani::stub(minicbor::decode::Decoder::skip, crate::skip_contract)]
-#[kani::unwind(10)]
-fn x_a_wide() {
-    let v = A { a: kani::any(), b: Some(kani::any()), c: kani::any() };
-    let mut inp = Out::<16>::new();
-    ref_a(&mut inp, &v, WIDE2);
-    let mut d = Decoder::new(&inp.b[..]);
-    let r: Result<A, minicbor::decode::Error> = Decode::decode(&mut d, &mut ());
-    match r { Ok(w) => { assert!(w == v); assert!(d.position() == inp.n) } Err(_) => assert!(false) }
-}
